@@ -112,4 +112,8 @@ var items = []modItem{
 	// ---- level (C12): width tables of the two palette configurations (they read a package variable: extra parameter) ----
 	{"Level", Item{Dir: "level", Kind: "func", Recv: "statesCfg", Func: "bits", Name: "statesCfg_bits"}},
 	{"Level", Item{Dir: "level", Kind: "func", Recv: "biomesCfg", Func: "bits", Name: "biomesCfg_bits"}},
+	// ---- level/chunk.go (C13) ----
+	{"Level", Item{Dir: "level", Kind: "func", Recv: "BlockEntity", Func: "UnpackXZ", Name: "BlockEntity_UnpackXZ"}},
+	{"Level", Item{Dir: "level", Kind: "cond", Recv: "BlockEntity", Func: "PackXZ", Err: "return false", Name: "BlockEntity_PackXZ_reject"}},
+	{"Level", Item{Dir: "level", Kind: "assign", Recv: "BlockEntity", Func: "PackXZ", Local: "b.XZ", Elem: "int8", Name: "BlockEntity_PackXZ_value"}},
 }
